@@ -19,7 +19,7 @@
    changes, all other elements and their order stay"). *)
 From Coq Require Import List ZArith Bool Arith Lia.
 From SC Require Import Base.Res Base.PyList Inst.Heap Inst.ClassTable Inst.Model Inst.Canon Inst.Abs
-  Inst.SpecHelpers Inst.ElemProofs Inst.RefineProofs Inst.CopyProofs Inst.ElemRefine.
+  Inst.SpecHelpers Inst.ElemProofs Inst.RefineProofs Inst.CopyProofs Inst.ElemRefine Inst.ElemRefine2.
 Import ListNotations.
 Open Scope nat_scope.
 
@@ -214,6 +214,36 @@ Proof.
   exact (with_item_list_inplace_refines ct h0 l a c d k sp s lc xs ity Hl Hc Ha Hd Hfz Hni Hty Hp Hs Hdep Hfld Hlc Hxs Hflat Hsh idx v ins Hv Hi).
 Qed.
 
+(* PROVED (C06_list_without_item_refines_partial): same receiver / container guard as above
+   (an item preparer is irrelevant here: nothing is inserted), for
+     helper     without_<item>(target), without_<item>(target, _by_index=True/False), in place
+     target     ANY scalar argument (sentinels included): by value (first of the equal
+                elements, True == 1; ValueError when absent), by index (negative indices,
+                bool is an int; IndexError when out of range, TypeError for a non-integer),
+                `_by_index` omitted (index unless the argument has the element type),
+                no target (MISSING): nothing changes.
+   State and error class agree with spec_helper; on an error the heap is untouched. *)
+Theorem C06_list_without_item_refines_partial :
+  forall ct h0 l a c d k sp s lc xs ity,
+  nth_error (heap s) l = Some (OInst c d) -> lookup_cls ct c = Some k -> lookup_attr k a = Some sp ->
+  NoDup (map fst d) -> c_frozen k = false -> no_inval k ->
+  a_ty sp = TList ity -> ty_depth ity < FUEL ->
+  assoc a d = Some (VRef lc) -> nth_error (heap s) lc = Some (OList xs) -> forallb nonref xs = true ->
+  flat_fields (heap s) d -> (forall b w, In (b, w) d -> b <> a -> w <> VRef lc) ->
+  forall voi bi,
+  nonref voi = true ->
+  let h := mkh [voi] true true VMissing false bi None [] None in
+  let ah := mkah [abs0 voi] true true AMissing false bi None [] None in
+  match run_helper ct l (HWithoutItem a) h s with
+  | (Ok r, s') => r = VRef l /\
+                  spec_helper ct h0 (absv (heap s) (VRef l)) (SWithoutItem a) ah = SOk (absv (heap s') (VRef l))
+  | (Err e, s') => spec_helper ct h0 (absv (heap s) (VRef l)) (SWithoutItem a) ah = SErr e /\ heap s' = heap s
+  end.
+Proof.
+  intros ct h0 l a c d k sp s lc xs ity Hl Hc Ha Hd Hfz Hni Hty Hdep Hfld Hlc Hxs Hflat Hsh voi bi Hv.
+  exact (without_item_list_inplace_refines ct h0 l a c d k sp s lc xs ity Hl Hc Ha Hd Hfz Hni Hty Hdep Hfld Hlc Hxs Hflat Hsh voi bi Hv).
+Qed.
+
 (* non-vacuity: falsy elements, equal elements at several positions, negative index *)
 Example C06_examples :
   let ct := @nil cls in
@@ -241,4 +271,5 @@ Print Assumptions C06_set_replace.
 Print Assumptions C06_set_remove.
 Print Assumptions C06_hashable_eq.
 Print Assumptions C06_list_with_item_refines_partial.
+Print Assumptions C06_list_without_item_refines_partial.
 Print Assumptions C06_examples.
